@@ -357,7 +357,7 @@ theorem fmtIntCore_spec (buf : List Byte) (neg : Bool) (u : Nat) (b : Base) (pad
     (by rw [hn]; omega)
   rw [t1] at t2
   unfold fmtIntCore
-  simp only [e1, e2]
+  simp only [clampPad, e1, e2]
   generalize ((if pad ≥ maxBufSize then (maxBufSize : Int) - 1 else pad) - ds.length).toNat = n at hn e2 l2 t2 ⊢
   cases neg with
   | false =>
@@ -433,7 +433,7 @@ theorem classify_lt (a : Arg) (neg : Bool) (u : Nat) (h : classify a = some (neg
     split at h
     · simp only [Option.some.injEq, Prod.mk.injEq] at h
       rw [← h.2]
-      unfold wrap64
+      unfold negMag wrap64
       omega
     · simp only [Option.some.injEq, Prod.mk.injEq] at h
       rw [← h.2]
@@ -466,7 +466,7 @@ theorem classify_sgn (k : SKind) (v : Int) (h : (Arg.sgn k v).inRange = true) :
   by_cases hv : v < 0
   · simp only [hv, if_true, decide_true]
     congr 2
-    unfold wrap64
+    unfold negMag wrap64
     omega
   · simp only [hv, if_false, decide_false]
     congr 2
@@ -577,11 +577,11 @@ theorem fmtString_exact (a : Arg) (w : Nat) (hw : w < 2^63) (hr : a.inRange = tr
   cases a with
   | str s =>
     simp only [Arg.inRange, decide_eq_true_eq] at hr
-    have : (wrap64 ((w : Int) - s.length)).toNat = w - s.length := by unfold wrap64; omega
+    have : (strPadCount (w : Int) s.length).toNat = w - s.length := by unfold strPadCount wrap64; omega
     simp [fmtString, fmtRepeat, render, leftPad, this, flatten_map_single]
   | bytes s =>
     simp only [Arg.inRange, decide_eq_true_eq] at hr
-    have : (wrap64 ((w : Int) - s.length)).toNat = w - s.length := by unfold wrap64; omega
+    have : (strPadCount (w : Int) s.length).toNat = w - s.length := by unfold strPadCount wrap64; omega
     simp [fmtString, fmtRepeat, render, leftPad, this]
   | uns k v => simp [fmtString, render]
   | sgn k v => simp [fmtString, render]
@@ -685,9 +685,9 @@ theorem scan_exact : ∀ (fmt : List Byte) (m : PMode) (args : List Arg) (buf : 
             have := scan_exact rest (.width (m.w * 10 + (c.toNat - 48))) args buf pieces hb hr
               (by simpa [PMode.w] using hlt) hp
             simp only [modeOf] at this
-            have e : wrap64 (wrap64 ((m.w : Int) * 10) + ((c.toNat - 48 : Nat) : Int))
+            have e : accumWidth (m.w : Int) c
                 = ((m.w * 10 + (c.toNat - 48) : Nat) : Int) := by
-              unfold wrap64; omega
+              unfold accumWidth wrap64; omega
             rw [e]
             exact this
           · cases hp
